@@ -1,0 +1,15 @@
+//go:build verif
+
+package prompting
+
+// VerifDetermineResponseMode exports determineResponseMode (verification hook;
+// compiled only with the build tag "verif", changes no behaviour).
+func VerifDetermineResponseMode(prompt string) ResponseMode {
+	return determineResponseMode(prompt)
+}
+
+// VerifEchoedPromptSuffixes returns a copy of echoedPromptSuffixes
+// (verification hook).
+func VerifEchoedPromptSuffixes() []string {
+	return append([]string(nil), echoedPromptSuffixes...)
+}
